@@ -98,6 +98,10 @@ def decode_message(msg_bytes, time=0, check=True):
         data = data[:-1]
         if end != SYSEX_END:
             raise ValueError(f'invalid sysex end byte {end!r}')
+    elif len(data) != spec['length'] - 1:
+        # Subtract 1 for status byte.
+        raise ValueError(
+            'wrong number of bytes for {} message'.format(spec['type']))
 
     if check:
         check_data(data)
